@@ -74,9 +74,9 @@ fn sizes(c: &Cfg) -> (u64, usize) {
     (std::cmp::max(1, (n as f64 * c.scale) as u64), p)
 }
 
-fn gen_key(rng: &mut Rng, alphabet: &[u8], maxlen: usize) -> String {
+fn gen_key(rng: &mut Rng, alphabet: &[char], maxlen: usize) -> String {
     let l = rng.urange(1, maxlen);
-    (0..l).map(|_| *rng.pick(alphabet) as char).collect()
+    (0..l).map(|_| *rng.pick(alphabet)).collect()
 }
 
 pub fn gen_case(seed: u64, idx: u64, pairs: usize) -> Case {
@@ -90,12 +90,20 @@ pub fn gen_case(seed: u64, idx: u64, pairs: usize) -> Case {
         _ => rng.urange(5, 60),
     };
     let unique = rng.chance(1, 4);
-    let alphabet: Vec<u8> = match rng.below(4) {
-        0 => b"ab".to_vec(),
-        1 => b"abc".to_vec(),
-        2 => b"abcde-_ .".to_vec(),
-        _ => b"xyzXYZ019".to_vec(),
+    let alphabet: Vec<char> = match rng.below(5) {
+        0 => "ab".chars().collect(),
+        1 => "abc".chars().collect(),
+        2 => "abcde-_ .".chars().collect(),
+        3 => "xyzXYZ019".chars().collect(),
+        // bytes that are not text: NUL, control bytes and, for `fst set`,
+        // invalid UTF-8 (chars below U+0100 stand for single bytes). `fst map`
+        // reads its rows as CSV text and refuses invalid UTF-8 with a clean
+        // error, so map inputs get multi-byte UTF-8 instead.
+        _ if mode == Mode::Set => vec!['\0', '\u{1}', '\u{7f}', '\u{80}', '\u{c3}', '\u{ff}', 'a', '\t'],
+        _ => vec!['\0', '\u{1}', '\u{7f}', '\u{101}', '\u{20ac}', 'a', '\t'],
     };
+    // one key much longer than any reader buffer (8 KiB, 64 KiB)
+    let long_key = if rng.chance(1, 12) { Some(*rng.pick(&[8191usize, 8192, 8193, 65_536, 70_001])) } else { None };
     let maxlen = if unique { 6 } else { *rng.pick(&[1usize, 2, 2, 3]) };
     let with_empty_key = rng.chance(1, 3);
     let big_values = mode != Mode::Set && rng.chance(1, 6);
@@ -115,6 +123,14 @@ pub fn gen_case(seed: u64, idx: u64, pairs: usize) -> Case {
         // `fst set`, an empty first field for `fst map`
         if with_empty_key && rng.chance(1, 6) {
             k = String::new();
+        }
+        if let Some(l) = long_key {
+            if made == 0 {
+                let c = *rng.pick(&alphabet);
+                let tail = k.clone();
+                k = std::iter::repeat(c).take(l).collect();
+                k.push_str(&tail);
+            }
         }
         if unique && !seen.insert(k.clone()) {
             continue;
@@ -233,6 +249,12 @@ fn account(st: &mut WStats, idx: u64, case: &Case, run: &crate::world::CaseRun) 
     }
     if case.input.crlf.iter().any(|b| *b) {
         bump(&mut st.counters, "input.crlf_line_ends", 1);
+    }
+    if case.input.files.iter().any(|f| f.iter().any(|(k, _)| k.chars().any(|c| (c as u32) >= 0x80 || c == '\0'))) {
+        bump(&mut st.counters, "input.keys_with_nul_or_invalid_utf8", 1);
+    }
+    if case.input.files.iter().any(|f| f.iter().any(|(k, _)| k.chars().count() > 8000)) {
+        bump(&mut st.counters, "input.line_longer_than_8KiB", 1);
     }
     if case.input.pad_values {
         bump(&mut st.counters, "input.values_with_leading_zeros", 1);
@@ -534,8 +556,8 @@ fn minimise(case: &Case, oracle: &str, root: &Path) -> (Case, u64) {
             for r in 0..cur.input.files[f].len() {
                 let (k, v) = cur.input.files[f][r].clone();
                 let mut cands: Vec<(String, u64)> = Vec::new();
-                if k.len() > 1 {
-                    cands.push((k[..1].to_string(), v));
+                if k.chars().count() > 1 {
+                    cands.push((k.chars().take(1).collect(), v));
                 }
                 if k != "a" {
                     cands.push(("a".to_string(), v));
